@@ -104,7 +104,17 @@ def run_engine_parallel(ctx, K):
         run_par_stream(ctx, K, b0, profile, 4, tier_n(ctx, 150, 3000), "par4_" + profile, False, claim=ctx.pid, include=inc, online=True)
 
 
+def run_kindtrace(ctx, K):
+    """differential tester for the node kinds outside the generated alphabet (Map3..8, MapIf, BindIf, Bind3/4, Cutoff2, Freeze,
+    Func, Watch, Timer, clock kinds inside programs, folds, incrutil helpers, slicei): implementation only"""
+    b = K.go_build(ctx, "kindtrace")
+    if b:
+        K.run_tool(ctx, b, ["-n", str(tier_n(ctx, 150, 3000)), "-seed", str(ctx.seed), "-claim", ctx.pid], "kinds")
+
+
 def run_engine(ctx, K):
+    if ctx.pid in ("C01", "C11"):
+        run_kindtrace(ctx, K)
     if ctx.pid in ("C01", "C02", "C03", "C05", "C06"):
         # the >64-entry edge index sits under every wide node's dependents, inputs and observers: values (C01),
         # ordering (C02), missed runs (C03) and leaks (C06) all go through it
@@ -336,6 +346,7 @@ PLANS_C16 = {"C16": dict(run=run_C16,
 # ------------------------------------------------------------------ C14, C15 (foldclock-builder), C17 (mapi-builder)
 
 def run_C14(ctx, K):
+    run_kindtrace(ctx, K)  # ArrayFold / All / ForAll / Exists / MapN inside larger programs, under binds, both stabilizers
     run_C05_edgeindex(ctx, K)  # aggregates are the typical wide nodes: their input lists sit on the >64-entry edge index
     b = K.go_build(ctx, "foldtrace")
     if not b:
@@ -350,6 +361,7 @@ def run_C14(ctx, K):
 
 
 def run_C15(ctx, K):
+    run_kindtrace(ctx, K)  # At / AtIntervals / StepFunction / Snapshot inside larger programs, under binds, both stabilizers
     run_parscen(ctx, K)  # time-driven nodes inside the engine: woken in a block with a failing bind, both stabilizers
     b = K.go_build(ctx, "clocktrace")
     if not b:
